@@ -60,3 +60,36 @@ package ledger
 //@   pure
 //@   nopanic
 //@   property C10
+
+// ---- C13: every kind of log the system writes can be read back
+// the name of every declared log type is non-empty and maps back to the same type
+//@ func (ledger.LogType).String
+//@   ensures declaredConst(l, "ledger.LogType") ==> ret != ""
+//@   ensures l == SetMetadataLogType ==> ret == "SET_METADATA"
+//@   ensures l == NewTransactionLogType ==> ret == "NEW_TRANSACTION"
+//@   ensures l == RevertedTransactionLogType ==> ret == "REVERTED_TRANSACTION"
+//@   ensures l == DeleteMetadataLogType ==> ret == "DELETE_METADATA"
+//@   nopanic
+//@   pure
+//@   property C13
+//@ func ledger.LogTypeFromString
+//@   requires logType == "SET_METADATA" || logType == "NEW_TRANSACTION" || logType == "REVERTED_TRANSACTION" || logType == "DELETE_METADATA"
+//@   ensures logType == "SET_METADATA" ==> ret == SetMetadataLogType
+//@   ensures logType == "NEW_TRANSACTION" ==> ret == NewTransactionLogType
+//@   ensures logType == "REVERTED_TRANSACTION" ==> ret == RevertedTransactionLogType
+//@   ensures logType == "DELETE_METADATA" ==> ret == DeleteMetadataLogType
+//@   nopanic
+//@   pure
+//@   property C13
+// dispatch coverage: the payload of every declared log type can be hydrated (never "unknown type")
+//@ func ledger.HydrateLog
+//@   requires declaredConst(_type, "ledger.LogType")
+//@   nopanic
+//@   property C13
+// typed target id: what the decoder puts into TargetID has one of the dynamic types the writers put there
+// (for a transaction: *big.Int), so a decoded entry equals the written one; the account branch goes through
+// encoding/json and is not decided
+//@ func (*ledger.SetMetadataLogPayload).UnmarshalJSON
+//@   requires s != nil
+//@   ensures err == nil && lib("strings.ToUpper", s.TargetType) == lib("strings.ToUpper", "TRANSACTION") ==> typeis(s.TargetID, "*big.Int")
+//@   property C13
